@@ -447,7 +447,6 @@ func resolveIncludePaths(basePath string, includes []ast.Include) []string {
 			resolved = append(resolved, resolvedPath)
 		}
 	}
-	sort.Strings(resolved)
 	return resolved
 }
 
